@@ -1,9 +1,9 @@
 CONSTANTS
   Docs = {1, 2}
-  Fields = {"F", "G"}
+  Fields = {"F"}
   Handles = {1, 2}
   MaxLen = 3
-  MaxSteps = 4
+  MaxSteps = 5
   Extras = FALSE
   Emit = FALSE
   SharedTokenCache = FALSE
